@@ -165,7 +165,7 @@ class Grammar:
                         out.append(("IF",) + vals)
                         out.append(("SW", vals[0], "x", vals[1], vals[2]))
                         if size == 4:
-                            out.append(("SWG", vals[0], ["y", "x", "z"], vals[1], vals[2]))
+                            out.append(("SWG", vals[0], ["x", "y", "z"], vals[1], vals[2]))
             if self.control and size >= 5:
                 for split in itertools.product(range(1, size), repeat=4):
                     if sum(split) != size - 1:
